@@ -535,7 +535,9 @@ static int pad_pkcs2(bn_t m, size_t *p_len, size_t m_len, size_t k_len,
 				pad = (uint8_t)t->dp[0];
 				if (pad == RSA_PSS) {
 					int r = 1;
-					for (int i = m_len; i < 8 * k_len; i++) {
+					/* The encoded message has modBits - 1 bits: every bit from
+					 * position modBits - 1 on must be zero (RFC 8017, 9.1.2). */
+					for (int i = m_len - 1; i < 8 * k_len; i++) {
 						if (bn_get_bit(m, i) != 0) {
 							r = 0;
 						}
